@@ -350,6 +350,52 @@ func c04(r *ev.Run, replay string) {
 			r.Completed("V2 every pair of fields adjacent on the wire of every base message set to {0, all-ones, pattern} x {0, all-ones, pattern}")
 		}
 	}
+	// history independence of the parser: whatever was parsed before, a frame parses to what it parses
+	// to alone. Probes: one frame per root kind plus frames whose decoding consults tables (every
+	// tunnel-metadata index at three widths, registers, conntrack label); after every frame of the
+	// corpus and every single-field variation of the bases all probes are parsed again and compared
+	// (re-encoding and size) with their standalone result.
+	probes := c04Probes()
+	var probeRuns int64
+	probeBad := map[string]bool{}
+	afterOp := func(t *wire.N, what string) {
+		f, _ := wire.Encode(t)
+		if len(f) > 65535 {
+			return
+		}
+		// the probes are themselves parses and may undo what the frame left behind (a table that every
+		// reply of some kind rewrites): the frame is parsed again and the probes observed in the opposite
+		// order, so that every probe is at most one parse of another kind away from the frame at least once
+		for pass := 0; pass < 2; pass++ {
+			safeParse(append([]byte{}, f...))
+			for k := range probes {
+				i := k
+				if pass == 1 {
+					i = len(probes) - 1 - k
+				}
+				p := &probes[i]
+				probeRuns++
+				if got := p.observe(); got != p.alone && !probeBad[p.name] {
+					probeBad[p.name] = true
+					r.Violation("history-dependent-parse:"+p.name, fmt.Sprintf("after parsing %s [%s] the probe frame %s parses to %s; parsed alone it gives %s", shortModel(t), what, p.name, clip(got), clip(p.alone)),
+						c04Case{Tree: p.tree, Earlier: t, What: "probe after an earlier parse"})
+				}
+			}
+		}
+	}
+	corpus.Switch(false, r.Expired, func(string, bool) {}, func(t *wire.N) { afterOp(t, "shape") })
+	selP := baseSelector{max: 2048}
+	for _, b := range c04Bases() {
+		selP.offer(b)
+	}
+	corpus.Switch(false, func() bool { return false }, func(string, bool) {}, selP.offer)
+	_, okP := selP.vary(r.Seed, r.Expired, afterOp)
+	r.Set("probe_parses_after_other_frames", probeRuns)
+	if okP && !r.Expired() {
+		r.Completed(fmt.Sprintf("H2 %d probe frames re-parsed after every frame of the switch corpus and after every single-field variation of its bases: same result as alone", len(probes)))
+	} else {
+		r.Incomplete("H2 probes after every frame")
+	}
 	// two-step histories: parse A, parse B, observe A again - all ordered pairs of the base messages
 	var pairs int64
 	bases := c04Bases()
@@ -509,4 +555,53 @@ func sorted2(m map[string]bool) []string {
 	}
 	sort.Strings(ks)
 	return ks
+}
+
+// c04Probe is a frame with its standalone observation.
+type c04Probe struct {
+	name  string
+	tree  *wire.N
+	frame []byte
+	alone string
+}
+
+func (p *c04Probe) observe() string {
+	m, err, pn := safeParse(append([]byte{}, p.frame...))
+	if pn != nil {
+		return fmt.Sprintf("panic: %v", pn)
+	}
+	if err != nil || m == nil {
+		return fmt.Sprintf("error: %v", err)
+	}
+	b, err, pn := safeEncode(m)
+	if pn != nil || err != nil {
+		return fmt.Sprintf("parsed, but re-encoding fails: %v %v", err, pn)
+	}
+	l, _ := safeLen(m)
+	return fmt.Sprintf("len=%d %x", l, b)
+}
+
+func c04Probes() []c04Probe {
+	var out []c04Probe
+	add := func(name string, t *wire.N) {
+		f, _ := wire.Encode(t)
+		p := c04Probe{name: name, tree: t, frame: f}
+		p.alone = p.observe()
+		out = append(out, p)
+	}
+	// frames whose match fields are decoded through the registry / width tables
+	for _, in := range corpus.OxmInfos() {
+		if in.Width != 0 {
+			continue
+		}
+		for _, l := range []int{4, 8, 124} {
+			add(fmt.Sprintf("flow_removed with %s of %d bytes", in.Name, l), corpus.FlowRemoved(corpus.Match(corpus.Oxm(in, false, l, l), corpus.OxmByName("OXM_OF_IN_PORT", false, 1))))
+		}
+		add(fmt.Sprintf("flow_removed with masked %s of 8 bytes", in.Name), corpus.FlowRemoved(corpus.Match(corpus.Oxm(in, true, 8, 8))))
+	}
+	add("flow_removed with reg and ct_label", corpus.FlowRemoved(corpus.Match(corpus.OxmByName("NXM_NX_REG3", true, 2), corpus.OxmByName("NXM_NX_CT_LABEL", true, 3))))
+	for _, b := range c04Bases() {
+		add(rootSig(b), b)
+	}
+	return out
 }
